@@ -18,6 +18,17 @@ three oracles: the per-method expectation (must raise / may raise but must not
 send, vf/model_cmds.py), the return value of Bus.as_map() on a live bus, and
 the id ledger, which also resolves ids written as bus mapping symbols
 ('c3', 'a2': role usesym of vf/cmdref.py) in /s_new, /n_set and /n_setn.
+
+Nested bind() blocks (round 8): NestedCase runs a tree of blocks over one or
+two servers (one Runner each, one capture) from the main thread or a routine
+and logs block entries, exits (normal / by exception), operations and sync
+points in execution order; NestedJudge replays the log on a reference model
+(per server a stack of pending command lists) and compares the wire with it:
+first which commands arrived in which order per server (keys
+C17/bind-nested/commands-of-a-block-that-raised-reached-the-wire/...,
+commands-lost/..., commands-duplicated, commands-out-of-issue-order), then
+packet by packet (one bundle per outermost block and sync point:
+grouping-differs-from-outermost-blocks), then per method, grammar and ledger.
 """
 
 import errno
@@ -1539,3 +1550,371 @@ def define_seti_defs(sc3mods_synthdef, layouts):
                         f'assumed {k} x {chans}')
             k += chans
     return None
+
+
+# ---------------------------------------------------------------------------
+# nested bind() blocks (round 8)
+
+class NestedCase:
+    """Runs a case of vf/c17_gen.py:gen_nested_case: one Runner (objects, id
+    ledger, model environment) per server, one capture, and a log of what
+    happened in execution order: ('op', srv, rec) | ('enter', srv, st) |
+    ('exit-ok', srv, st) | ('exit-fail', srv, st) | ('sync', srv, elements)."""
+
+    def __init__(self, sc3mods, servers, mode, capture, ledgers, counters):
+        self.m = sc3mods
+        self.cap = capture
+        self.mode = mode
+        self.count = counters
+        self.runners = [Runner(sc3mods, s, mode, capture, l, counters)
+                        for s, l in zip(servers, ledgers)]
+        self.log = []
+        self.idx = 0
+        self.unexpected = None
+        self.violation = None
+        self.aborted = False
+
+    def do_op(self, item):
+        s = item['srv']
+        r = self.runners[s]
+        rec = r.step(self.idx, item['do'], None)
+        self.idx += 1
+        self.log.append(('op', s, rec))
+        if r.aborted:
+            self.aborted = True
+            raise Abort()
+
+    def block(self, blk):
+        """Generator (driven by a routine, or run to its end on the main
+        thread when the case has no sync / wait)."""
+        s = blk['srv']
+        server = self.runners[s].server
+        addr_before = server.addr
+        st = {'blk': blk, 'srv': s}
+        try:
+            with server.bind():
+                self.log.append(('enter', s, st))
+                st['collecting_inside'] = bool(server.addr.has_bundle())
+                for item in blk['items']:
+                    if 'do' in item:
+                        self.do_op(item)
+                    elif 'block' in item:
+                        yield from self.block(item['block'])
+                    elif 'sync' in item:
+                        r = self.runners[item['srv']]
+                        el = item['sync']
+                        real = want = None
+                        if el is not None:
+                            real = [[x.node_id if hasattr(x, 'node_id') else x
+                                     for x in r.real(mm)] for mm in el]
+                            want = [[mc.control_input(x, r.env) for x in mm]
+                                    for mm in el]
+                        self.log.append(('sync', item['srv'], want))
+                        if real is None:
+                            yield from r.server.sync()
+                        else:
+                            yield from r.server.sync(elements=real)
+                    else:
+                        yield item['wait']
+                if blk['raise_at'] is not None:
+                    raise Boom()
+            self.log.append(('exit-ok', s, st))
+            st['addr_restored'] = server.addr is addr_before
+        except BaseException as e:
+            self.log.append(('exit-fail', s, st))
+            st['addr_restored'] = server.addr is addr_before
+            st['escaped'] = type(e).__name__
+            if isinstance(e, Boom) and blk['catch']:
+                return
+            raise
+
+    def run(self, case, clocks, wait=10.0):
+        """False: the routine did not finish in time (no verdict)."""
+        try:
+            for item in case['pre']:
+                self.do_op(item)
+        except Abort:
+            return True
+        done = threading.Event()
+
+        def task():
+            try:
+                yield from self.block(case['root'])
+            except (Boom, Abort):
+                pass
+            except Violation as v:
+                self.violation = v
+            except Exception as e:      # noqa
+                self.unexpected = e
+            finally:
+                done.set()
+        if case['where'] == 'routine':
+            self.m.Routine.run(task, clocks[case['clock']])
+            if not done.wait(wait):
+                return False
+        else:
+            for _ in task():
+                raise AssertionError('a main-thread case must not yield')
+        if self.violation is not None:
+            raise self.violation
+        if self.aborted or self.unexpected is not None:
+            return True
+        try:
+            for item in case['post']:
+                self.do_op(item)
+        except Abort:
+            pass
+        return True
+
+
+class NestedJudge:
+    """Reference model of nested blocks, written from the property statement
+    and the documentation of Server.bind / Server.sync (no sc3 import):
+    every server has a stack of open blocks; a command belongs to the
+    innermost open block of its server (none: it is sent directly); a block
+    that exits normally hands its commands to the enclosing block of the same
+    server, the outermost one sends them as ONE bundle; a block that raises
+    drops its commands; `yield from server.sync()` sends everything issued so
+    far in the open blocks of that server as one bundle, then the /sync
+    bundle (with its elements).  The wire must carry exactly that."""
+
+    def __init__(self, nc, packets, mode, counters):
+        self.nc = nc
+        self.packets = packets
+        self.mode = mode
+        self.count = counters
+        self.judges = [Judge(r, packets, mode, counters) for r in nc.runners]
+        self.targets = [tuple(r.server.addr._target) for r in nc.runners]
+
+    @staticmethod
+    def msgs_of(rec):
+        if rec['raised'] is not None or rec['expect'] is None:
+            return []
+        return rec['expect'].messages()
+
+    def fail(self, key, rec=None, **w):
+        wit = {'op_index': rec['index'] if rec else None,
+               'op': rec['op'] if rec else None}
+        wit.update(w)
+        wit['wire'] = _clip([[list(t) if t else None, g.plain()]
+                             for g, t in self.packets], 40)
+        raise Violation(key, wit)
+
+    def run(self):
+        nc = self.nc
+        for ev in nc.log:
+            if ev[0] == 'op':
+                self.judges[ev[1]].check_exception(ev[2])
+        if nc.unexpected is not None:
+            e = nc.unexpected
+            self.fail(f'C17/bind-nested/raises/{_site(e)}', tb=short_tb(e))
+        for ev in nc.log:
+            if ev[0] == 'enter':
+                st = ev[2]
+                if not st.get('collecting_inside', True):
+                    self.fail('C17/bind/server-address-not-proxied-inside-block',
+                              depth=st['blk']['depth'])
+            elif ev[0] in ('exit-ok', 'exit-fail') and ev[2].get('addr_restored') is False:
+                self.fail('C17/bind-nested/server-address-not-restored/'
+                          + ('after-exception' if ev[0] == 'exit-fail'
+                             else 'after-normal-exit'), depth=ev[2]['blk']['depth'])
+        # ---- the model
+        stacks = [[] for _ in nc.runners]
+        emis = []            # ('direct', s, rec) | ('bundle', s, recs, info) | ('sync', s, el)
+        dropped = [[] for _ in nc.runners]      # (rec, nested?) of blocks that raised
+        for ev in nc.log:
+            kind, s = ev[0], ev[1]
+            if kind == 'op':
+                rec = ev[2]
+                if stacks[s]:
+                    if rec['call1'] != rec['call0']:
+                        self.fail('C17/bind/command-sent-before-block-exit', rec,
+                                  got=[g.plain() for g, _ in
+                                       self.packets[rec['call0']:rec['call1']]])
+                    stacks[s][-1]['recs'].append(rec)
+                else:
+                    emis.append(('direct', s, rec))
+                    if any(stacks):
+                        self.count('nested_direct_sends_to_a_server_without_open_block')
+            elif kind == 'enter':
+                stacks[s].append({'recs': [], 'drops': 0, 'depth': len(stacks[s])})
+                self.count('nested_blocks_entered')
+                if len(stacks[s]) >= 2:
+                    self.count('nested_blocks_inside_a_block_of_the_same_server')
+                if len(stacks[s]) >= 3:
+                    self.count('nested_blocks_at_same_server_depth_3')
+            elif kind == 'exit-ok':
+                top = stacks[s].pop()
+                if stacks[s]:
+                    stacks[s][-1]['recs'].extend(top['recs'])
+                    stacks[s][-1]['drops'] += top['drops']
+                else:
+                    emis.append(('bundle', s, top['recs'],
+                                 {'how': 'exit', 'drops': top['drops']}))
+            elif kind == 'exit-fail':
+                top = stacks[s].pop()
+                nested = bool(stacks[s])
+                n = sum(len(self.msgs_of(r)) for r in top['recs'])
+                dropped[s].extend((r, nested) for r in top['recs'])
+                self.count('nested_blocks_failed')
+                if nested and n:
+                    stacks[s][-1]['drops'] += 1
+                    self.count('nested_failed_inner_blocks_with_commands_in_open_outer_block')
+            elif kind == 'sync':
+                recs = [r for b in stacks[s] for r in b['recs']]
+                drops = sum(b['drops'] for b in stacks[s])
+                if len(stacks[s]) >= 2:
+                    self.count('nested_sync_points_inside_inner_blocks')
+                for b in stacks[s]:
+                    b['recs'] = []
+                    b['drops'] = 0
+                emis.append(('bundle', s, recs, {'how': 'sync', 'drops': drops}))
+                emis.append(('sync', s, ev[2]))
+                self.count('nested_sync_points')
+        # ---- whole sequences per server first (which commands, which order)
+        SYNC = ['/sync']
+        for s in range(len(nc.runners)):
+            exp = []          # (want message, rec | None, where)
+            for e in emis:
+                if e[1] != s:
+                    continue
+                if e[0] == 'direct':
+                    exp += [(w, e[2], 'outside') for w in self.msgs_of(e[2])]
+                elif e[0] == 'bundle':
+                    exp += [(w, r, 'block') for r in e[2] for w in self.msgs_of(r)]
+                else:
+                    exp += [(w, None, 'sync') for w in (e[2] or [])] + [(SYNC, None, 'sync')]
+            wire = [mm for g, t in self.packets if t is not None
+                    and tuple(t) == self.targets[s]
+                    for mm in (_msgs_of(g) if not isinstance(g, osc.Msg) else [g])]
+            self.count('nested_messages_compared', len(wire))
+
+            def same(w, mm):
+                if w is SYNC:
+                    return mm.addr == '/sync' and len(mm.args) == 1
+                return mc.match_message(w, mm, _decode_blob) is None
+            if len(exp) == len(wire) and all(w[0] == mm.addr
+                                             for (w, _r, _k), mm in zip(exp, wire)):
+                continue        # same commands in the same order: details below
+            left = list(wire)
+            lost = []
+            for w, r, k in exp:
+                for j, mm in enumerate(left):
+                    if same(w, mm):
+                        del left[j]
+                        break
+                else:
+                    lost.append((w, r, k))
+            wit = {'server': s,
+                   'expected': mc.plain([w for w, _r, _k in exp])[:60],
+                   'on_wire': [_show(x) for x in wire][:60],
+                   'lost': mc.plain([w for w, _r, _k in lost])[:20],
+                   'extra': [_show(x) for x in left][:20]}
+            leaked = [(x, nested) for x in left for r, nested in dropped[s]
+                      if any(same(w, x) for w in self.msgs_of(r))]
+            if leaked:
+                where = ('inner-block-caught-inside-an-outer-block'
+                         if any(n for _x, n in leaked) else 'outermost-block')
+                wit['leaked'] = [_show(x) for x, _n in leaked][:20]
+                self.fail('C17/bind-nested/commands-of-a-block-that-raised-'
+                          f'reached-the-wire/{where}', **wit)
+            if left and not lost:
+                dup = any(same(w, x) for x in left for w, _r, _k in exp)
+                self.fail('C17/bind-nested/' + ('commands-duplicated' if dup
+                                                else 'unexpected-commands'), **wit)
+            if lost and not left:
+                kinds = {k for _w, _r, k in lost}
+                where = ('of-blocks-that-exited-normally' if kinds == {'block'}
+                         else 'outside-blocks' if kinds == {'outside'}
+                         else 'sync-point' if kinds == {'sync'} else 'mixed')
+                self.fail(f'C17/bind-nested/commands-lost/{where}', **wit)
+            if not lost and not left:
+                self.fail('C17/bind-nested/commands-out-of-issue-order', **wit)
+            self.fail('C17/bind-nested/commands-differ', **wit)
+        # ---- packet by packet: one bundle per outermost block / sync point
+        cur = 0
+        P = self.packets
+        shape = [[len(_msgs_of(g)) if not isinstance(g, osc.Msg) else 1,
+                  list(t) if t else None] for g, t in P]
+
+        def structure(why, **w):
+            self.fail('C17/bind-nested/' + why, packets_elements_and_targets=shape[:40],
+                      expected_emissions=[[e[0], e[1], sum(len(self.msgs_of(r)) for r in e[2])
+                                           if e[0] == 'bundle' else None]
+                                          for e in emis][:40], **w)
+        for e in emis:
+            s = e[1]
+            J = self.judges[s]
+            if e[0] == 'direct':
+                rec = e[2]
+                if rec['call0'] != cur:
+                    structure('packets-not-attributable-to-an-operation', at=cur)
+                J.check_packets_outside(rec)
+                cur = rec['call1']
+                continue
+            if e[0] == 'sync':
+                if cur >= len(P):
+                    structure('grouping-differs-from-outermost-blocks', at=cur)
+                g, t = P[cur]
+                cur += 1
+                J.check_target({'index': None, 'op': {'op': 'sync'}}, t)
+                msgs = _msgs_of(g) if not isinstance(g, osc.Msg) else [g]
+                if not msgs or msgs[-1].addr != '/sync' or \
+                        sum(mm.addr == '/sync' for mm in msgs) != 1:
+                    structure('grouping-differs-from-outermost-blocks', at=cur - 1,
+                              detail='expected the /sync bundle here')
+                want = e[2] or []
+                if len(want) != len(msgs) - 1 or any(
+                        mc.match_message(w, x, _decode_blob)
+                        for w, x in zip(want, msgs[:-1])):
+                    self.fail('C17/bind-sync/sync-elements-differ', None,
+                              expected_elements=mc.plain(want), got=g.plain())
+                continue
+            recs, meta = e[2], e[3]
+            n = sum(len(self.msgs_of(r)) for r in recs)
+            if n == 0:
+                if cur < len(P) and isinstance(P[cur][0], osc.Bundle) \
+                        and not P[cur][0].elements \
+                        and tuple(P[cur][1] or ()) == self.targets[s]:
+                    cur += 1            # an empty bundle says nothing: tolerated
+                continue
+            if cur >= len(P):
+                structure('grouping-differs-from-outermost-blocks', at=cur)
+            g, t = P[cur]
+            cur += 1
+            pseudo = recs[0]
+            if t is None or tuple(t) != self.targets[s]:
+                structure('bundles-of-two-servers-in-unexpected-order', at=cur - 1)
+            J.check_target(pseudo, t)
+            if not isinstance(g, osc.Bundle):
+                if n == 1:
+                    self.fail('C17/bind/block-sent-as-plain-message', pseudo,
+                              got=g.plain())
+                structure('grouping-differs-from-outermost-blocks', at=cur - 1)
+            if any(not isinstance(x, osc.Msg) for x in g.elements):
+                self.fail('C17/bind/nested-bundle-in-block-bundle', pseudo,
+                          got=_clip(g.plain()))
+            if len(g.elements) != n:
+                structure('grouping-differs-from-outermost-blocks', at=cur - 1,
+                          expected_elements=n, got_elements=len(g.elements),
+                          sent_at=meta['how'])
+            self.count('nested_bundles_compared')
+            if meta['drops']:
+                self.count('nested_bundles_sent_after_dropping_a_failed_inner_block')
+            pos = 0
+            for rec in recs:
+                wm = self.msgs_of(rec)
+                seg = g.elements[pos:pos + len(wm)]
+                pos += len(wm)
+                if rec['expect'] is None:
+                    continue
+                J.match_sequence(rec, wm, seg, False, got=[_clip(g.plain())])
+                for mm in seg:
+                    J.check_message(rec, mm)
+        if cur != len(P):
+            structure('packets-not-attributable-to-an-operation', at=cur)
+        for ev in nc.log:
+            if ev[0] == 'op':
+                self.judges[ev[1]].check_ledger(ev[2])
+                self.count('ops_compared')
+        self.count('nested_cases_checked')
